@@ -25,7 +25,7 @@ FAILED=$(grep -E "^FAILED|^ERROR" /tmp/lead/seed_suite_$PROP.log | grep -v "test
 # 4. registered checks against the changed tree
 RES=""
 for P in $PROP $EXTRA; do
-  R=$(cd /verif && VERIF_REPO="$WT" ./check $P 2>&1 | grep -E "^VIOLATION|^SUMMARY|^INCONCLUSIVE" | cut -c1-260)
+  R=$(cd ${VERIF_DIR:-/verif} && VERIF_REPO="$WT" ./check $P 2>&1 | grep -E "^VIOLATION|^SUMMARY|^INCONCLUSIVE" | cut -c1-260)
   NV=$(echo "$R" | grep -c "^VIOLATION")
   RES="$RES\n--- ./check $P (quick): $NV VIOLATION lines\n$(echo "$R" | head -6)"
 done
